@@ -179,14 +179,14 @@ def search(rep: C.Report, tier: str, broken):
         scale = sum(abs(c) for c in cs) * 4 ** deg / h ** n + 1e-300
         rep.case(key=(n, order, side, rel, deg, round(np.log10(h))))
         rep.count(f"search {side}")
-        if abs(res - exact) > 1e-9 * scale:
+        if not abs(res - exact) <= 1e-09 * scale:
             rep.violation(f"derivative n={n} order={order} not exact on a degree-{deg} polynomial",
                           {"n": n, "order": order, "x": x, "dx": h, "bounds": [lo, hi], "coeffs_in_(y-x)/h": cs,
                            "result": res, "exact": exact, "call": "helpers.derivative(P, x, n, order, bounds, dx=h)"},
                           finding_key=f"C19:inexact:{n}:{order}")
         if bounds is not None:
             pts = np.concatenate(seen)
-            if (lo is not None and pts.min() < lo) or (hi is not None and pts.max() > hi):
+            if lo is not None and (not pts.min() >= lo) or (hi is not None and (not pts.max() <= hi)):
                 narrow = lo is not None and hi is not None and (hi - lo) < npts[(n, order)] * h * (1 + 1e-12)
                 rep.violation(f"derivative evaluated f outside bounds (n={n}, order={order})",
                               {"n": n, "order": order, "x": x, "dx": h, "bounds": [lo, hi],
@@ -213,7 +213,7 @@ def search(rep: C.Report, tier: str, broken):
         pts = np.concatenate(seen)
         rep.case(key=("aligned", n, order, side, k, round(np.log10(h))))
         rep.count("lattice-aligned points next to a bound")
-        if pts.min() < lo or pts.max() > hi:
+        if not pts.min() >= lo or not pts.max() <= hi:
             rep.violation(f"derivative evaluated f outside bounds (n={n}, order={order}) for a point exactly {k} step(s) from the bound",
                           {"n": n, "order": order, "x": x, "dx": h, "bounds": [lo, hi], "evaluated": pts.tolist(),
                            "overshoot": float(max(lo - pts.min(), pts.max() - hi))}, finding_key=f"C19:out-of-bounds:aligned:{side}")
@@ -229,7 +229,7 @@ def search(rep: C.Report, tier: str, broken):
             return np.asarray(y) ** 3
         res = float(helpers.derivative(g, T, n=1, order=4, epsilon=1e-15, scale=scale, bounds=(0, np.inf)))
         rep.case(key=("derivT", round(np.log10(T), 1), round(np.log10(scale), 1)))
-        if np.concatenate(pts).min() < 0 or abs(res - 3 * T * T) > 1e-6 * (3 * T * T + scale ** 2):
+        if not np.concatenate(pts).min() >= 0 or not abs(res - 3 * T * T) <= 1e-06 * (3 * T * T + scale ** 2):
             rep.violation("temperature derivative leaves [0,inf) or is inexact on T^3",
                           {"T": T, "scale": scale, "points": np.concatenate(pts).tolist(), "result": res},
                           finding_key="C19:derivT")
@@ -251,7 +251,7 @@ def search(rep: C.Report, tier: str, broken):
                 idx = list(range(d)) if ax is None else ([ax] if isinstance(ax, int) else ax)
                 exp = (X @ A + bvec)[..., idx]
                 rep.case(key=("grad", shp, order, str(ax)))
-                if gr.shape != exp.shape or np.max(np.abs(gr - exp)) > 1e-9:
+                if gr.shape != exp.shape or not np.max(np.abs(gr - exp)) <= 1e-09:
                     rep.violation("gradient shape/value wrong on a quadratic form",
                                   {"shape": shp, "order": order, "axis": ax, "got_shape": list(gr.shape), "expected_shape": list(exp.shape),
                                    "maxerr": float(np.max(np.abs(gr - exp))) if gr.shape == exp.shape else None},
@@ -261,7 +261,7 @@ def search(rep: C.Report, tier: str, broken):
                     idy = list(range(d)) if ay is None else ([ay] if isinstance(ay, int) else ay)
                     exph = np.broadcast_to(A[np.ix_(idx, idy)], shp[:-1] + (len(idx), len(idy)))
                     rep.case(key=("hess", shp, order, str(ax), str(ay)))
-                    if hs_.shape != exph.shape or np.max(np.abs(hs_ - exph)) > 1e-8:
+                    if hs_.shape != exph.shape or not np.max(np.abs(hs_ - exph)) <= 1e-08:
                         rep.violation("hessian shape/value wrong on a quadratic form",
                                       {"shape": shp, "order": order, "xAxis": ax, "yAxis": ay, "got_shape": list(hs_.shape),
                                        "expected_shape": list(exph.shape)}, finding_key=f"C19:hessian:{order}")
@@ -281,7 +281,7 @@ def search(rep: C.Report, tier: str, broken):
                 if (a, b) == (0, 2):
                     exp[1, 1] = 2
                 rep.case(key=("hessmono", order, a, b))
-                if np.max(np.abs(res - exp)) > 1e-9:
+                if not np.max(np.abs(res - exp)) <= 1e-09:
                     rep.violation(f"hessian not exact on x^{a} y^{b} (order {order})",
                                   {"order": order, "a": a, "b": b, "got": res.tolist(), "expected": exp.tolist()},
                                   finding_key=f"C19:hessmono:{order}")
